@@ -329,9 +329,10 @@ Wit(c) == c => (PrintT(<<"BEH", ToJson(hist)>>) /\ FALSE)
 WitSentinel == Wit({"double-max-sentinel-dbl-min"} \in LastAlts)
 WitRounded  == Wit({"long-value-rounded-onto-boundary"} \in LastAlts)
 WitDiffSum  == Wit({"diff-sum-not-computed"} \in LastAlts)
-WitDiffRounded == Wit({"diff-sum-not-computed", "long-value-rounded-onto-boundary"} \in LastAlts)
-\* witnesses for rare shapes
 LastOp == IF Len(hist) < 2 THEN "none" ELSE hist[Len(hist)].op
+WitDiffRounded == Wit(LastOp = "diff" /\ {"diff-sum-not-computed"} \in LastAlts
+                      /\ {"long-value-rounded-onto-boundary"} \in LastAlts)
+\* witnesses for rare shapes
 WitMergeOfDiff == Wit(LastOp = "merge" /\ \E s \in Slots : obj[s].live /\ ~obj[s].mmv /\ mm /\ BSize(obj[s].bag) > 1)
 WitBoundaryEqual == Wit(LastOp = "agg" /\ hist[Len(hist)].v \in B /\ NB >= 2)
 WitCumSecondInterval == Wit(LastOp = "collect" /\ \E r \in Readers, k \in Keys :
